@@ -33,6 +33,8 @@ def pt_alphabet():
                 out.append(("hand", kind, e, tr, n, dt))
     out.append(("hand", "rank4-readout-caps", 2, False, 3, DT))
     out.append(("hand", "rank4-readout-caps", 3, True, 2, None))
+    out.append(("hand", "rank4-in-only", 2, True, 2, DT))       # exactly one of the two optional transforms is set
+    out.append(("hand", "rank4-out-only", 3, True, 3, DT))
     out.append(("pttempo", "diag", None, None, 4, DT))
     out.append(("pttempo", "nondiag", None, None, 3, DT))
     out.append(("pttempo", "nondiag-complex", None, None, 3, DT))
@@ -48,6 +50,19 @@ def build(spec):
         if kind == "rank4":
             ks = [[R.random_free_unitary(d * e, 30 + k)] for k in range(n)]
             return A.build_pt(d, e, sigma, ks, dt=dt, basis_v=v, name="hand made", description="rank-4 ancilla PT")
+        if kind in ("rank4-in-only", "rank4-out-only"):
+            from oqupy.process_tensor import SimpleProcessTensor
+            ks = [[R.random_free_unitary(d * e, 30 + k)] for k in range(n)]
+            full = A.build_pt(d, e, sigma, ks, dt=dt, basis_v=v)
+            one = SimpleProcessTensor(hilbert_space_dimension=d, dt=dt,
+                                      transform_in=full.transform_in if kind == "rank4-in-only" else None,
+                                      transform_out=full.transform_out if kind == "rank4-out-only" else None,
+                                      name="one transform", description=kind)
+            for k in range(n):
+                one.set_mpo_tensor(k, full.get_mpo_tensor(k, transformed=False))
+            for k in range(n + 1):
+                one.set_cap_tensor(k, full.get_cap_tensor(k))
+            return one
         if kind == "rank4-readout-caps":
             ks = [[R.random_free_unitary(d * e, 30 + k)] for k in range(n)]
             ro = np.diag(np.arange(1, e + 1, dtype=float)).astype(complex) + 0.2 * (np.ones((e, e)) - np.eye(e))
